@@ -437,6 +437,7 @@ func newFamilyContract(f *ssa.Function) *Contract {
 func (jf *JSONFamily) Install() {
 	em := jf.Em
 	InstallJSONLibrary(em.W)
+	InstallJSONDecodeLibrary(em.W)
 	for _, f := range em.W.Functions() {
 		f := f
 		recv := f.Signature.Recv()
@@ -457,7 +458,21 @@ func (jf *JSONFamily) Install() {
 			continue
 		}
 		_, isStruct := nt.Underlying().(*types.Struct)
+		_, isSlice := nt.Underlying().(*types.Slice)
+		isArr := isSlice && jt.Schema.Type == "array"
 		switch {
+		case f.Name() == "marshalJSONInnerBody" && !ptr && isArr:
+			jf.installArrayInner(f, jt)
+			for _, g := range f.AnonFuncs {
+				ps := g.Signature.Params()
+				if ps.Len() == 1 && types.IsInterface(ps.At(0).Type()) {
+					jf.installWriteItem(g, f)
+				}
+			}
+		case f.Name() == "MarshalJSON" && !ptr && isArr:
+			jf.installArrayOuter(f, jt)
+		case f.Name() == "UnmarshalJSON" && ptr && isArr:
+			jf.installArrayUnOuter(f, jt)
 		case f.Name() == "marshalJSONInnerBody" && !ptr && isStruct && jt.Schema.IsObjectLike():
 			jf.installInner(f, jt)
 			for _, g := range f.AnonFuncs {
@@ -468,6 +483,10 @@ func (jf *JSONFamily) Install() {
 			}
 		case f.Name() == "MarshalJSON" && !ptr && isStruct && jt.Schema.IsObjectLike():
 			jf.installOuter(f, jt)
+		case f.Name() == "unmarshalJSONInnerBody" && ptr && isStruct && jt.Schema.IsObjectLike():
+			jf.installUnInner(f, jt)
+		case f.Name() == "UnmarshalJSON" && ptr && isStruct && jt.Schema.IsObjectLike():
+			jf.installUnOuter(f, jt)
 		}
 	}
 }
@@ -811,9 +830,188 @@ func (jf *JSONFamily) apOf(e *FuncEnc, jt *jsonType, c string, st *state) *apCtx
 	e.D.Axiom("maplen0_"+mangle(ks), fmt.Sprintf("(= (%s ((as const (Array %s Bool)) false)) 0)", lenf, ks))
 	// a map with a key has positive length
 	e.D.Axiom("maplenpos_"+mangle(ks), fmt.Sprintf("(forall ((a (Array %s Bool)) (k %s)) (! (=> (select a k) (> (%s a) 0)) :pattern ((select a k) (%s a))))", ks, ks, lenf, lenf))
+	// a map of positive length has a key
+	wit := e.D.UF("mapwit_"+mangle(ks), []string{fmt.Sprintf("(Array %s Bool)", ks)}, ks)
+	e.D.Axiom("maplenwit_"+mangle(ks), fmt.Sprintf("(forall ((a (Array %s Bool))) (! (=> (> (%s a) 0) (select a (%s a))) :pattern ((%s a))))", ks, lenf, wit, lenf))
 	ctx.lenPos = and(not(eq(m, "0")), sx(">", sx(lenf, hasArr), "0"))
 	if jt.Schema.APSchema != nil && !types.IsInterface(elem) && !goKindMatches(elem, jt.Schema.APSchema) {
 		ctx.problem = fmt.Sprintf("additional property values of Go type %s do not encode as JSON %q", elem, jt.Schema.APSchema.Type)
 	}
 	return ctx
+}
+
+// ---------------------------------------------------------------- array components
+//
+//	emitted func (A).marshalJSONInnerBody(out io.Writer) error           [array schemas]
+//	  requires jst(trace, out) in {20, 99}                      -- just "[" written (or a failed write)
+//	  ensures  err == nil && old state != 99 ==> jst(trace, out) == (len(c) > 0 ? 22 : 20)
+//	  loop #0 invariant (processed == 0 && comma == "" && jst == 20) || (processed > 0 && comma == "," && jst == 22)
+//	emitted func (A).MarshalJSON() ([]byte, error)    ensures err == nil ==> doc_st(result) == 24 (one closed array)
+//	emitted func marshalJSONInnerBody$writeItem(v any)  ensures err == nil ==> old(err) == nil && one value (or null) written
+//	emitted func (*A).UnmarshalJSON(bs []byte) error  requires fresh receiver; ensures a non-null non-array document is rejected
+//
+// The values of the items (sequence of encoded elements, decoded elements) are
+// not under contract: see DESIGN §0.7, limits.
+
+func (jf *JSONFamily) installWriteItem(g, parent *ssa.Function) {
+	errA, outA, encA := localAlloc(parent, "err"), localAlloc(parent, "out"), localAlloc(parent, "encoder")
+	if errA == nil || outA == nil || encA == nil {
+		jf.note(parent.String() + ": writeItem closure without the expected captured variables")
+		return
+	}
+	c := newFamilyContract(g)
+	c.Options["family"] = "json-writeItem"
+	cellT := func(al *ssa.Alloc) types.Type { return al.Type().Underlying().(*types.Pointer).Elem() }
+	dd := NewDecls()
+	modKeys := map[string]bool{dd.heapKey(cellT(errA)): true}
+	c.Modifies = modKeys
+	c.PreHook = func(e *FuncEnc, args []string) []NamedFormula {
+		e.jsonEvents()
+		e.D.UF("enc_writer", []string{"Int"}, "Iface")
+		w := e.cellLoad(e.cur, outA)
+		enc := e.cellLoad(e.cur, encA)
+		e.noteWriter(w)
+		return []NamedFormula{{Name: "encoder-writes-to-out", Props: []string{"C06"}, Formula: and(not(eq(sx("if_tag", w), "0")), not(eq(enc, "0")), eq(sx("enc_writer", enc), w))}}
+	}
+	spec := func(e *FuncEnc, v string, pre, post *state) []NamedFormula {
+		e.jsonEvents()
+		w := e.cellLoad(pre, outA)
+		e0, e1 := e.cellLoad(pre, errA), e.cellLoad(post, errA)
+		nil0, nil1 := eq(sx("if_tag", e0), "0"), eq(sx("if_tag", e1), "0")
+		tokNull := sx("tr_cons", pre.trace, sx("ev_jw_tok", w, itoa(jkNull), "str_empty", "str_empty", "true"))
+		enc := sx("tr_cons", pre.trace, sx("ev_jw_enc", w, v))
+		return []NamedFormula{
+			{Name: "ensures#skipped-after-error", Props: []string{"C06"}, Formula: implies(not(nil0), and(eq(e1, e0), viewsEq(post.trace, pre.trace, w)))},
+			{Name: "ensures#item-written", Props: []string{"C06", "C07"}, Formula: implies(nil1, and(nil0, ite(eq(sx("if_tag", v), "0"), viewsEq(post.trace, tokNull, w), viewsEq(post.trace, enc, w))))},
+			{Name: "ensures#bad-stays-bad", Props: []string{"C06"}, Formula: implies(eq(sx("jst", pre.trace, w), "99"), eq(sx("jst", post.trace, w), "99"))},
+		}
+	}
+	c.RetHook = func(e *FuncEnc, results []string) []NamedFormula {
+		out := spec(e, e.val[g.Params[0]], e.entry, e.cur)
+		frame := "true"
+		if e.cur.epoch != e.entry.epoch {
+			frame = "false"
+		}
+		for k, n := range e.cur.heaps {
+			if modKeys[k] || k == fsKey {
+				continue
+			}
+			if srt, ok := e.heapSorts[k]; ok && e.heapName(e.entry, k, srt) != n {
+				frame = "false"
+			}
+		}
+		return append(out, NamedFormula{Name: "frame#only-err-written", Props: []string{"C06"}, Formula: frame})
+	}
+	c.PostHook = func(e *FuncEnc, args, results []string, pre, post *state) []NamedFormula {
+		return spec(e, args[0], pre, post)
+	}
+	jf.Em.W.Contracts[g.String()] = c
+}
+
+func (jf *JSONFamily) installArrayInner(f *ssa.Function, jt *jsonType) {
+	c := newFamilyContract(f)
+	c.Options["family"] = "json-marshal-array-inner"
+	errA, commaA := localAlloc(f, "err"), localAlloc(f, "comma")
+	c.PreHook = func(e *FuncEnc, args []string) []NamedFormula {
+		e.jsonEvents()
+		e.noteWriter(args[1])
+		st := sx("jst", e.cur.trace, args[1])
+		return []NamedFormula{{Name: "start-state", Props: []string{"C06"}, Formula: and(not(eq(sx("if_tag", args[1]), "0")), or(eq(st, "20"), eq(st, "99")))}}
+	}
+	spec := func(e *FuncEnc, cv, out, err, tr0, tr1 string) []NamedFormula {
+		e.jsonEvents()
+		st0, st1 := sx("jst", tr0, out), sx("jst", tr1, out)
+		ok := and(eq(sx("if_tag", err), "0"), not(eq(st0, "99")))
+		return []NamedFormula{
+			{Name: "ensures#state", Props: []string{"C06"}, Formula: implies(ok, eq(st1, ite(sx(">", sx("sl_len", cv), "0"), "22", "20")))},
+			{Name: "ensures#bad-stays-bad", Props: []string{"C06"}, Formula: implies(eq(st0, "99"), eq(st1, "99"))},
+		}
+	}
+	c.RetHook = func(e *FuncEnc, results []string) []NamedFormula {
+		return spec(e, e.val[f.Params[0]], e.val[f.Params[1]], results[0], e.entry.trace, e.cur.trace)
+	}
+	c.PostHook = func(e *FuncEnc, args, results []string, pre, post *state) []NamedFormula {
+		fs := spec(e, args[0], args[1], results[0], pre.trace, post.trace)
+		for _, w := range e.jsonWriters() {
+			if w != args[1] {
+				fs = append(fs, NamedFormula{Name: "frame", Formula: implies(not(eq(w, args[1])), viewsEq(post.trace, pre.trace, w))})
+			}
+		}
+		return fs
+	}
+	c.Modifies = map[string]bool{}
+	if errA != nil {
+		c.LoopHook = func(e *FuncEnc, ord int, env *cenv) []NamedFormula {
+			e.jsonEvents()
+			st := env.st
+			out := e.val[f.Params[1]]
+			e1 := e.cellLoad(st, errA)
+			var c1 string
+			if commaA != nil {
+				c1 = e.cellLoad(st, commaA)
+			} else if cv, ok := env.vars["comma"]; ok {
+				c1 = cv.s
+			} else {
+				return []NamedFormula{{Name: "invariant#shape", Props: []string{"C06"}, Formula: "false"}}
+			}
+			st0, st1 := sx("jst", e.entry.trace, out), sx("jst", st.trace, out)
+			idx, ok := env.vars["rangeindex"]
+			if !ok {
+				return []NamedFormula{{Name: "invariant#shape", Props: []string{"C06"}, Formula: "false"}}
+			}
+			done := sx("+", idx.s, "1")
+			G := and(eq(sx("if_tag", e1), "0"), not(eq(st0, "99")))
+			return []NamedFormula{
+				{Name: "invariant#comma-state", Props: []string{"C06"}, Formula: implies(G, or(and(eq(done, "0"), eq(c1, "str_empty"), eq(st1, "20")), and(sx(">", done, "0"), eq(c1, "lit_comma"), eq(st1, "22"))))},
+				{Name: "invariant#bad-stays-bad", Props: []string{"C06"}, Formula: implies(eq(st0, "99"), eq(st1, "99"))},
+			}
+		}
+	}
+	jf.Em.W.Contracts[f.String()] = c
+}
+
+func (jf *JSONFamily) installArrayOuter(f *ssa.Function, jt *jsonType) {
+	c := newFamilyContract(f)
+	c.Options["family"] = "json-marshal-array"
+	spec := func(e *FuncEnc, res, err string) []NamedFormula {
+		e.jsonEvents()
+		e.D.UF("doc_st", []string{"Slice"}, "Int")
+		return []NamedFormula{{Name: "ensures#valid", Props: []string{"C06"}, Formula: implies(eq(sx("if_tag", err), "0"), eq(sx("doc_st", res), "24"))}}
+	}
+	c.RetHook = func(e *FuncEnc, results []string) []NamedFormula { return spec(e, results[0], results[1]) }
+	c.PostHook = func(e *FuncEnc, args, results []string, pre, post *state) []NamedFormula {
+		return spec(e, results[0], results[1])
+	}
+	c.Modifies = map[string]bool{}
+	jf.Em.W.Contracts[f.String()] = c
+}
+
+func (jf *JSONFamily) installArrayUnOuter(f *ssa.Function, jt *jsonType) {
+	c := newFamilyContract(f)
+	c.Options["family"] = "json-unmarshal-array"
+	T := jt.Named
+	c.PreHook = func(e *FuncEnc, args []string) []NamedFormula {
+		e.needUn()
+		return []NamedFormula{{Name: "fresh-receiver", Props: []string{"C06", "C08"}, Formula: and(not(eq(args[0], "0")), jf.zeroReceiver(e, e.cur, args[0], T))}}
+	}
+	spec := func(e *FuncEnc, cptr, bs, err string, post *state) []NamedFormula {
+		e.needUn()
+		d := sx("rawdoc", bs)
+		okk := eq(sx("if_tag", err), "0")
+		ef, vf := e.udecFns(T)
+		return []NamedFormula{
+			{Name: "ensures#strict-array", Props: []string{"C08"}, Formula: implies(and(not(sx("docNull", d)), not(eq(sx("docKind", d), "2"))), not(okk))},
+			{Name: "def#udec", Formula: and(eq(okk, not(sx(ef, d))), implies(okk, eq(e.load(post, cptr, T), sx(vf, d))))},
+		}
+	}
+	c.RetHook = func(e *FuncEnc, results []string) []NamedFormula {
+		return spec(e, e.val[f.Params[0]], e.val[f.Params[1]], results[0], e.cur)[:1]
+	}
+	c.PostHook = func(e *FuncEnc, args, results []string, pre, post *state) []NamedFormula {
+		fs := spec(e, args[0], args[1], results[0], post)
+		e.Assumed["the outcome of UnmarshalJSON on a fresh receiver is a function of the document (uerr_T, udec_T name it)"] = true
+		return append(fs, jf.receiverFrame(e, args[0], T, pre, post)...)
+	}
+	c.Modifies = jf.receiverKeys(T, nil)
+	jf.Em.W.Contracts[f.String()] = c
 }
